@@ -125,6 +125,16 @@ func (r *Result) AddViolation(v Violation, replay interface{}) bool {
 		name := fmt.Sprintf("%s-%s-%s-%d.json", v.Property, r.Harness, sanitize(*Shard), len(r.Violations))
 		p := filepath.Join(*ReplayD, name)
 		b, _ := json.MarshalIndent(replay, "", " ")
+		if m := os.Getenv("VERIF_MODE"); m != "" && m != "inst" && m != "plain" {
+			// a non-default build of the harness (e.g. instlog): the replay must be run on the same build
+			var obj map[string]interface{}
+			if json.Unmarshal(b, &obj) == nil {
+				if _, has := obj["mode"]; !has {
+					obj["mode"] = m
+					b, _ = json.MarshalIndent(obj, "", " ")
+				}
+			}
+		}
 		if err := os.WriteFile(p, b, 0o644); err == nil {
 			v.Replay = p
 		}
